@@ -21,7 +21,7 @@ locals: paths are rooted at declaration ids; keys render roots by their type.
 """
 from .build import AnalysisBroken
 
-CAP = 32          # max disjuncts kept per program point
+CAP = 24          # max disjuncts kept per program point
 LOOP_ROUNDS = 3   # loop iterations with full disjuncts before widening
 
 NORETURN_LIBC = frozenset(['exit', '_exit', '_Exit', 'abort', '__assert_fail', 'quick_exit', 'longjmp', '__builtin_unreachable', '__builtin_trap'])
@@ -152,20 +152,19 @@ def join_states(sts):
                 break
             vals.append(w)
         if not ok:
+            nul[k] = ('U', None)
             continue
         tags = set(x[0] for x in vals)
         if len(tags) == 1:
             nul[k] = v
-        elif 'U' in tags:
+        else:
+            # the disjuncts disagree: the correlation that tells them apart is lost by this (forced) merge, so the
+            # path is "unknown" from here on (never "may be null": a merge must not create an alarm)
             nul[k] = ('U', None)
-        elif 'N' in tags:
-            nul[k] = [x for x in vals if x[0] == 'N'][0]
-        else:   # NN on some paths, NULL on others
-            src = None
-            for x in vals:
-                if x[1]:
-                    src = x[1]
-            nul[k] = ('N', src or ('null', 'is NULL on some path to here'))
+    for s in sts[1:]:
+        for k in s.nul:
+            if k not in first.nul:
+                nul[k] = ('U', None)
     vs = {}
     for k, v in first.vs.items():
         acc = v
@@ -183,6 +182,13 @@ def join_states(sts):
             vs[k] = acc
     ali = {k: v for k, v in first.ali.items() if all(s.ali.get(k) == v for s in sts[1:])}
     pc = {k: v for k, v in first.pc.items() if all(s.pc.get(k) == v for s in sts[1:])}
+    # did the merge lose a guard (outcome of a pure call, a kind set)?  Then a branch that was infeasible for each disjunct
+    # becomes reachable for the merged state: values that "may be NULL" must not be judged there any more.
+    lost = any(len(s.pc) != len(pc) for s in sts) or any(k.endswith('->kind') and (k not in vs or vs[k] != s.vs[k]) for s in sts for k in s.vs)
+    if lost:
+        for k, v in list(nul.items()):
+            if v[0] == 'N':
+                nul[k] = ('U', None)
     return St(nul, vs, ali, pc)
 
 
@@ -206,7 +212,17 @@ def norm(sts):
             seen.add(k)
             out.append(s)
     if len(out) > CAP:
-        # too many disjuncts: merge the most similar pairs first, so that facts shared by a family of paths survive
+        # too many disjuncts.  First merge states that agree on the facts that matter for the rules (outcomes of repeated
+        # pure calls, nullness of values from nullable sources, kind sets); they differ only in incidental flags.
+        groups = {}
+        for st in out:
+            sig = (frozenset((k, v[0]) for k, v in st.pc.items()),
+                   frozenset((k, v[0]) for k, v in st.nul.items() if v[1] is not None or v[0] == 'NULL'),
+                   frozenset((k, v) for k, v in st.vs.items() if k.endswith('->kind')))
+            groups.setdefault(sig, []).append(st)
+        out = [join_states(g) if len(g) > 1 else g[0] for g in groups.values()]
+    if len(out) > CAP:
+        # still too many: merge the most similar pairs first, so that facts shared by a family of paths survive
         sets = [frozenset((k, v[0]) for k, v in st.nul.items()) | frozenset(st.vs.items()) for st in out]
         while len(out) > CAP // 2:
             best = None
